@@ -83,6 +83,14 @@ fn rand_props(r: &mut Rng, max: usize) -> Vec<(Cow<'static, str>, Cow<'static, s
     let n = r.below(max + 1);
     let mut v: Vec<(Cow<'static, str>, Cow<'static, str>)> = vec![];
     for _ in 0..n {
+        // keys and values that mean something to tracing back ends (semantic conventions, reserved
+        // tags): for the reporters they are properties like any other
+        if r.chance(1, 10) {
+            const KEYS: [&str; 22] = ["span.kind", "error", "otel.status_code", "otel.status_description", "service.name", "resource.name", "span.type", "sampling.priority", "_dd.p.dm", "_sampling_priority_v1", "name", "type", "service", "resource", "http.method", "http.status_code", "component", "peer.service", "event", "level", "message", "exception.type"];
+            const VALS: [&str; 14] = ["client", "server", "producer", "consumer", "internal", "batch-job", "true", "false", "ERROR", "OK", "1", "-1", "", "web"];
+            v.push((KEYS[r.below(KEYS.len())].into(), VALS[r.below(VALS.len())].into()));
+            continue;
+        }
         let k = if !v.is_empty() && r.chance(1, 6) { v[r.below(v.len())].0.to_string() } else { rand_str(r, 40) };
         v.push((k.into(), rand_str(r, 300).into()));
     }
